@@ -204,6 +204,14 @@ example : clientPathGen [0x61, 0x2e, 0x62] [0x47] [0x4d] = [0x2f, 0x61, 0x2e, 0x
 example : parsePattern (rpcRoutePatternGen [0x47]) = some (.catchAll [0x2f, 0x47, 0x2f]) := by decide
 
 
+/-- **A typed call goes to its method's route whatever route the request carried**: a `Request` that was
+forwarded from elsewhere, built for another method, or has an empty route is re-routed; nothing else of
+it is touched. -/
+theorem C17_route_set_unconditionally (pkg svc m : Bytes) (r r' : Req) :
+    (clientStamp pkg svc m r).route = (clientStamp pkg svc m r').route ∧
+    (clientStamp pkg svc m r).route = serverPathGen pkg svc m ∧
+    (clientStamp pkg svc m r).headers = r.headers ∧ (clientStamp pkg svc m r).body = r.body := ⟨rfl, rfl, rfl, rfl⟩
+
 /-- **The typed-call plumbing the model describes is the one in the source** (shapes recognised on this
 run): an error status becomes a response carrying its code, ALL its headers and (if any) its message
 under `status-message`, and is rebuilt from exactly those on the client; the client encodes, calls, turns
